@@ -5,11 +5,28 @@ worktree of /repo (which the caller has already mutated), print the verdict.
    mutate:  edit files under /tmp/wt-foo  (or: git -C /tmp/wt-foo apply patch.diff)
    run:     lib/mutest.py C07 /tmp/wt-foo
    remove:  git -C /repo worktree remove --force /tmp/wt-foo
-/repo itself is never touched, so several mutation tests can run in parallel."""
+/repo itself is never touched, so several mutation tests can run in parallel.
+
+The check that is run is the COMMITTED one: a git worktree of /verif's HEAD
+(.build/snap-Cxx, refreshed on every call; unchanged files keep their mtimes so
+the Coq closure is rebuilt incrementally).  Edits in flight in /verif's working
+tree (a builder in the middle of a proof) therefore cannot be blamed on the
+mutant.  MUTEST_WORKTREE=1 runs /verif's working tree instead."""
 import subprocess, sys, json, os
 pid, wt = sys.argv[1:3]
+root = "/verif"
+if not os.environ.get("MUTEST_WORKTREE"):
+    snap = "/verif/.build/snap-" + pid
+    head = subprocess.run(["git", "-C", "/verif", "rev-parse", "HEAD"], stdout=subprocess.PIPE, text=True).stdout.strip()
+    if not os.path.exists(os.path.join(snap, "check")):
+        subprocess.run(["git", "-C", "/verif", "worktree", "prune"])
+        subprocess.run(["git", "-C", "/verif", "worktree", "add", "--detach", "-f", snap, head, "-q"], check=True)
+    else:
+        subprocess.run(["git", "-C", snap, "checkout", "-q", "--detach", head], check=True)
+        subprocess.run(["git", "-C", snap, "clean", "-qfd", "--", "coq", "harness", "gen", "lib"], check=False)
+    root = snap
 env = dict(os.environ, VERIF_REPO=os.path.realpath(wt), VERIF_EVIDENCE_DIR="/tmp/mutest-evidence-%d" % os.getpid())
-r = subprocess.run(["/verif/check", pid, "quick"], stdout=subprocess.PIPE, stderr=subprocess.STDOUT, text=True, env=env)
+r = subprocess.run([root + "/check", pid, "quick"], stdout=subprocess.PIPE, stderr=subprocess.STDOUT, text=True, env=env)
 print(r.stdout[-3000:]); print("exit", r.returncode)
 for line in r.stdout.splitlines():
     if line.startswith("VIOLATION"):
